@@ -33,6 +33,7 @@ pub fn dump_items<'tcx>(tcx: TyCtxt<'tcx>) -> J {
     let mut structs: Vec<(String, J)> = Vec::new();
     let mut macros: Vec<(String, J)> = Vec::new();
     let mut fns: Vec<(String, J)> = Vec::new();
+    let mut aliases: Vec<(String, J)> = Vec::new();
 
     for id in tcx.hir_free_items() {
         let item = tcx.hir_item(id);
@@ -88,6 +89,26 @@ pub fn dump_items<'tcx>(tcx: TyCtxt<'tcx>) -> J {
                     J::Obj(vec![("fields", J::Arr(fields)), ("file", J::s(file)), ("line", J::Int(line as i128))]),
                 ));
             }
+            hir::ItemKind::Use(path, hir::UseKind::Single(ident)) => {
+                if !tcx.visibility(did).is_public() {
+                    continue;
+                }
+                let parent = tcx.parent(did);
+                let mut ppath = full_path(tcx, parent);
+                if ppath == "crate" {
+                    ppath = tcx.crate_name(rustc_span::def_id::LOCAL_CRATE).to_string();
+                }
+                let alias = format!("{}::{}", ppath, ident);
+                for res in [path.res.type_ns, path.res.value_ns] {
+                    if let Some(rustc_hir::def::Res::Def(_, target)) = res {
+                        let canon = full_path(tcx, target);
+                        if canon != alias {
+                            aliases.push((alias.clone(), J::s(canon)));
+                        }
+                        break;
+                    }
+                }
+            }
             hir::ItemKind::Macro(ident, def, _) => {
                 let (file, line) = line_of(tcx, item.span);
                 macros.push((
@@ -136,5 +157,6 @@ pub fn dump_items<'tcx>(tcx: TyCtxt<'tcx>) -> J {
         ("structs", J::Map(structs)),
         ("macros", J::Map(macros)),
         ("fns", J::Map(fns)),
+        ("aliases", J::Map(aliases)),
     ])
 }
